@@ -81,7 +81,10 @@ def check_proofs(pid, tier):
             x = st.get(t, {'status': 'unparsed', 'reason': 'not run'})
             res['source_tables'][t] = {k: v for k, v in x.items() if k != 'file'}
             if x['status'] != 'ok':
-                continue            # the fragment left the translator's Rust subset: no tie by translation, the correspondence remains (not an alarm)
+                # the fragment left the translator's Rust subset: no tie by translation, the correspondence remains (not an alarm) -- but the
+                # correspondence then works harder: the families of this property are generated at the thorough tier's size (see main)
+                res.setdefault('ties_lost', []).append(t)
+                continue
             res['obligations'] += 1; res['theorems'].append(x['theorem'])
             if x.get('compiles') and x.get('closed'):
                 res['discharged'] += 1; res['axioms'][x['theorem']] = []
@@ -252,7 +255,16 @@ def main():
         fam_sets.RUNNER = runner
         for fam in spec['families']:
             fam_name = fam['name']
-            cases, meta = fam['gen'](tier, rng)
+            # a source fragment this property's theorems were tied to by proof is no longer tied (rewritten out of the translators' subset, or
+            # its proof fails): the search for a failing input is widened to the thorough tier's generators for this run
+            gen_tier = 'thorough' if (proofs.get('ties_lost') or any('translated from the Rust source' in p for p in proofs['problems'])) else tier
+            cases, meta = fam['gen'](gen_tier, rng)
+            if gen_tier != tier:
+                cap = 600000
+                if len(cases) > cap:
+                    # keep the widened search within minutes: a uniform sample of the larger family (dependent cases, e.g. `sat` after `minv`, are generated pairwise and tolerate a missing partner)
+                    keep = set(rng.sample(range(len(cases)), cap)); cases = [c for i, c in enumerate(cases) if i in keep]
+                meta = dict(meta, escalated='generated at the thorough size (at most %d cases) because a source tie of this property was lost: %s' % (cap, ', '.join(proofs.get('ties_lost', []) or ['a failing _src_ok'])))
             cases = list(dict.fromkeys(F.corpus_cases(pid, fam_name) + cases))
             t1 = time.time()
             triples = run_cases(workdir, fam_name, cases)
